@@ -249,6 +249,41 @@ def check_pair_blocks(chk, lib, case, env):
     return True
 
 
+def check_session(chk, lib, case, cfg, tmp):
+    """Several diagonalize_hessian calls on ONE HessianMatrix object (the spec's Calls: other potentials / other
+    scalar parameters on the same configuration, then the first call again): every saved matrix must be the one
+    the specification derives for that call, whatever was computed before on the object."""
+    hm, ip0 = render(lib, cfg)
+    seq = [dict(c, tag=f"alt{k}") for k, c in enumerate(case["calls"])]
+    base = {"model": case["model"], "n": case["n"], "A": case["A"], "alpha": case["alpha"], "defs": case["defs"], "tag": "again"}
+    order = [base] + seq + [base]
+    for k, call in enumerate(order):
+        env = eval_defs(call["defs"])
+        exp = np.array([[float(ev(t, env)) for t in row] for row in case["matrix"]], dtype=float)
+        ip = lib.InteractionParams(model_name=lib.ModelName[call["model"]], ipl_n=q(call["n"]), ipl_A=q(call["A"]),
+                                   harmonic_hertz_alpha=q(call["alpha"]))
+        out = os.path.join(tmp, f"sess{k}")
+        try:
+            with np.errstate(all="ignore"):
+                hm.diagonalize_hessian(interaction_params=ip, saveevecs=False, savehessian=True, outputfile=out)
+            obs = np.asarray(np.load(out + ".hessianmatrix.npy"), dtype=float)
+        except Exception as e:
+            chk.violation(f"raises:{type(e).__name__}", dict(cfg, error=str(e), call=f"call {k} of a session on one object"))
+            return False
+        finally:
+            for suf in (".omega_PR.csv", ".hessianmatrix.npy", ".evecs.npy"):
+                if os.path.exists(out + suf):
+                    os.remove(out + suf)
+        scale = float(np.max(np.abs(exp))) if exp.size else 0.0
+        if obs.shape != exp.shape or np.any(np.abs(obs - exp) > 1e-9 + 1e-9 * np.abs(exp) + 1e-13 * scale):
+            chk.violation("session:matrix-depends-on-earlier-calls",
+                          dict(cfg, call_index=k, calls=[{kk: c[kk] for kk in ("model", "n", "A", "alpha")} for c in order],
+                               observed=obs.tolist(), expected=exp.tolist()))
+            return False
+        chk.extra["session_calls_compared"] = chk.extra.get("session_calls_compared", 0) + 1
+    return True
+
+
 def replay_case(chk, lib, case, shapes, tmp, extra_paths=False):
     cfg = cfg_view(case)
     dim, N = case["dim"], len(case["pos"])
@@ -290,6 +325,8 @@ def replay_case(chk, lib, case, shapes, tmp, extra_paths=False):
         except Exception as e:
             chk.violation(f"raises:{type(e).__name__}", dict(cfg, error=str(e), call="integer-typed epsilons"))
             ok = False
+    if ok and case.get("calls") and not case["edge"]:
+        ok = check_session(chk, lib, case, cfg, tmp)
     if ok and extra_paths:
         # the save flags: nothing but the csv is written, and it is the same csv; default output name
         try:
